@@ -17,7 +17,7 @@ package crypto
 //@ spec SameInts(s []int) bool = forall i int :: 0 <= i && i < len(s) ==> s[i] == old(s[i])
 //@ spec SameKeys(p []*Key) bool = forall i int :: 0 <= i && i < len(p) ==> p[i] == old(p[i])
 
-//@ -- decodePoint, (*Key).VerifyWithChallenge: assumed contracts in zz_contracts_c13_verif.go; (*Key).Verify: zz_contracts_c30_verif.go
+//@ -- decodePoint: verified in zz_contracts_c32_verif.go; (*Key).VerifyWithChallenge: assumed in zz_contracts_c13_verif.go; (*Key).Verify: zz_contracts_c30_verif.go
 
 // ───────────── group operations as uninterpreted functions of opaque point values (T-GROUP) ─────────────
 
@@ -27,8 +27,9 @@ package crypto
 //@ uninterp PAdd(a edwards25519.Point, b edwards25519.Point) edwards25519.Point
 //@ uninterp PMul(c [32]byte, p edwards25519.Point) edwards25519.Point
 //@ uninterp PBase(c [32]byte) edwards25519.Point
-//@ uninterp PEnc(p edwards25519.Point) mathint
-//@ uninterp PDecode(s mathint) edwards25519.Point
+//@ -- (PEnc / PDecode are the C32 observers EncOf / PointOf of trusted/c32.spec: one vocabulary for encodings)
+//@ spec PEnc(p edwards25519.Point) mathint = EncOf(p)
+//@ spec PDecode(s mathint) edwards25519.Point = PointOf(s)
 
 //@ -- TranscriptOf(publics, signers): the byte string collectAggregateSigners returns as transcript (be32(count) followed by
 //@ -- be32(index) || key for every signer). ASSUMED to be a function of the signer list and the selected keys (true: nothing
@@ -44,8 +45,9 @@ package crypto
 //@          PMul(CoeffOf(tr, signers[n - 1], seq(*publics[signers[n - 1]])), PDecode(seq(*publics[signers[n - 1]]))))
 //@ spec WKeyOf(publics []*Key, signers []int) mathint = PEnc(WSum(TranscriptOf(publics, signers), publics, signers, len(signers)))
 
+//@ -- (C13 and C09 use this function through its contract; it is verified once, in the C14 check)
 //@ func collectAggregateSigners
-//@   property C14, C13, C09
+//@   property C14
 //@   modifies nothing
 //@   ensures [ok] err == nil ==> SignersOK(publics, signers) && len(result0) == len(signers) && len(result1) == 4 + 36 * len(signers) &&
 //@       (forall i int :: 0 <= i && i < len(signers) ==> result0[i].index == signers[i] && result0[i].public == publics[signers[i]] && result0[i].point != nil)
@@ -72,15 +74,16 @@ package crypto
 //@ uninterp EmptyHash() mathint
 //@ uninterp Sha512Seq(input mathint) mathint
 //@ uninterp WideReduce(digest mathint) [32]byte
-//@ -- BE32(v): the 4 big-endian bytes of v (0 <= v < 2^32), defined elementwise
-//@ uninterp BE32(v mathint) [4]byte
-//@ axiom forall v int :: { BE32(v) } 0 <= v && v < 4294967296 ==>
-//@     BE32(v)[0] == v / 16777216 && BE32(v)[1] == (v / 65536) % 256 && BE32(v)[2] == (v / 256) % 256 && BE32(v)[3] == v % 256
+//@ -- U32Seq(v): the seq code of the 4 big-endian bytes of v. The axiom says that a 4-byte string is determined by its
+//@ -- big-endian value (seq is a function of the content): no div/mod, no array extensionality is needed to use it with
+//@ -- binary.BigEndian.PutUint32's contract b[0]*2^24 + b[1]*2^16 + b[2]*2^8 + b[3] == v.
+//@ uninterp U32Seq(v mathint) mathint
+//@ axiom forall a [4]byte :: { seq(a) } seq(a) == U32Seq(a[0] * 16777216 + a[1] * 65536 + a[2] * 256 + a[3])
 
 //@ -- the rogue-key coefficient of one signer: H(domain || transcript || be32(index) || key) reduced mod l. This is what
 //@ -- binds every signer's weight to the WHOLE transcript (count, all indexes, all keys), its own index and its own key.
 //@ spec CoeffOf(tr mathint, index int, pub mathint) [32]byte =
-//@     WideReduce(Sha512Seq(cat(cat(cat(cat(EmptyHash(), strseq(aggregateCoefficientDomain)), tr), seq(BE32(index % 4294967296))), pub)))
+//@     WideReduce(Sha512Seq(cat(cat(cat(cat(EmptyHash(), strseq(aggregateCoefficientDomain)), tr), U32Seq(index % 4294967296)), pub)))
 
 //@ func aggregateCoefficient
 //@   property C14
@@ -99,7 +102,7 @@ package crypto
 //@   ensures [value] ScBytes(*result0) == old(AggChalOf(seq(commitment), seq(public), seq(message)))
 
 //@ func aggregatePublicKey
-//@   property C13, C09, C14
+//@   property C09, C14
 //@   modifies nothing
 //@   ensures [ok] err == nil ==> result0 != nil && fresh(result0) && SignersOK(publics, signers)
 //@   ensures [fail] err != nil ==> result0 == nil
@@ -130,7 +133,6 @@ package crypto
 //@   loop 0 invariant [sum] *P == WSum(seq(transcript), publics, signers, rangeindex + 1)
 //@   loop 0 invariant [coeffs] forall k int :: 0 <= k && k <= rangeindex ==>
 //@       ScBytes(*coefficients[k]) == CoeffOf(seq(transcript), signers[k], seq(*publics[signers[k]]))
-//@   uses entryclosure, blockframe
 
 //@ func AggregateSign
 //@   property C14
